@@ -7,7 +7,7 @@ import ChalkModel.Lemmas.FixedPointSemI
 namespace Chalk.FixedPoint.Cyc
 
 section
-variable {c : Bool} {inst : Instance} {dom : List Nat} {cfg : Cfg}
+variable {c : Bool} {inst : Instance} {dom : List Nat} {fx : Bool} {cfg : Cfg}
 
 theorem not_minGe {sub : Min} {dfn : Nat} (h : ¬ Min.ge sub dfn = true) : ∃ l, sub = some l ∧ l < dfn := by
   cases sub with
@@ -25,13 +25,13 @@ def cachedSt (s3 : St) (G : List Node) (cc6 : List (Nat × V)) : St :=
 def keptSt (s3 : St) (G : List Node) : St := { s3 with graph := G, stack := s3.stack.dropLast }
 
 /-- the bookkeeping of `solve_goal` after the loop -/
-theorem finishGoal_sem {s0 : St} {g : Nat} {sub : Min} {s3 : St}
-    (hp : LoopPost c inst dom s0 g sub s3) (m : Min) (v : V) (m' : Min) (s' : St)
+theorem finishGoal_sem (h3 : cfg.fixF3 = true) {s0 : St} {g : Nat} {sub : Min} {s3 : St}
+    (hp : LoopPost c inst dom fx s0 g sub s3) (m : Min) (v : V) (m' : Min) (s' : St)
     (h : finishGoal cfg m s0.stack.length s0.graph.length sub s3 = .ok (v, m') s') :
-    Inv c inst dom s' ∧ Step c inst s0 s' m' ∧ MinLe m' m ∧ Fact c inst s0 s' m' g v := by
-  obtain ⟨st', s1, old, cur, new, A, hfl, hg3, hlen3, hget3, R3⟩ := hp
+    Inv c inst dom fx s' ∧ Step c inst s0 s' m' ∧ MinLe m' m ∧ Fact c inst s0 s' m' g v := by
+  obtain ⟨st', s1, old, cur, new, new3, A, hcase, hg3, hlen3, hget3, R3⟩ := hp
   have hg4 : updateNode (fun n => { n with links := sub, stackDepth := none }) s0.graph.length s3.graph =
-      s0.graph ++ (⟨g, cur, none, sub⟩ : Node) :: new := by
+      s0.graph ++ (⟨g, cur, none, sub⟩ : Node) :: new3 := by
     rw [hg3, updateNode_mid]
   have hpop : s0.stack.length + 1 = s3.stack.length := hlen3.symm
   simp only [finishGoal, pop, hpop, if_true, hg4, mid_at] at h
@@ -45,6 +45,30 @@ theorem finishGoal_sem {s0 : St} {g : Nat} {sub : Min} {s3 : St}
   have hslen : s3.stack.dropLast.length = s0.stack.length := by
     rw [List.length_dropLast]; omega
   have hle : MinLe (Min.updateFrom m sub) m := updateFrom_le_left m sub
+  have hamb : cur = .ambig → s1.interrupted = true := by
+    intro e
+    have hf := A.fact
+    rw [e] at hf
+    exact hf.ambig
+  have hfl' : cur ≠ .ambig → ¬ flagAt s1.stack s0.stack.length ∨ old = cur := by
+    intro hne
+    cases hcase with
+    | inl h1 => exact h1.2
+    | inr h1 => exact absurd h1.2 hne
+  -- the reported fact, once the node is gone from the graph
+  have hfact : ∀ (sF : St), sF.interrupted = s1.interrupted → (cur ≠ .ambig → Corr c inst g cur) →
+      Fact c inst s0 sF (Min.updateFrom m sub) g cur := by
+    intro sF hiF hcorr
+    rcases A.cur_val with hc | hc | hc
+    · have := hcorr (by rw [hc]; exact top_ne_ambig c)
+      cases this with
+      | inl h1 => exact Or.inl ⟨hc, Or.inl h1.2⟩
+      | inr h1 => rw [hc] at h1; exact absurd h1.1 (top_ne_bot c)
+    · have := hcorr (by rw [hc]; exact bot_ne_ambig c)
+      cases this with
+      | inl h1 => rw [hc] at h1; exact absurd h1.1.symm (top_ne_bot c)
+      | inr h1 => exact Or.inr (Or.inl ⟨hc, h1.2, hlow hc⟩)
+    · exact Or.inr (Or.inr ⟨hc, by rw [hiF]; exact hamb hc⟩)
   by_cases hge : Min.ge sub s0.graph.length = true
   · cases hc1 : s1.cache with
     | none =>
@@ -55,59 +79,97 @@ theorem finishGoal_sem {s0 : St} {g : Nat} {sub : Min} {s3 : St}
       subst hv; subst hm'; subst hs'
       have P : Popped s0 s1 { keptSt s3 s0.graph with cache := none } :=
         ⟨hslen, hsget, hc1.symm, R3.oracle, R3.oracleDefault, R3.interrupted⟩
-      obtain ⟨i6, hs6, hcorr⟩ := A.finish_discard (s6 := { keptSt s3 s0.graph with cache := none }) P hfl
+      obtain ⟨i6, hs6, hcorr⟩ := A.finish_discard (s6 := { keptSt s3 s0.graph with cache := none }) P hfl'
         ((minGe_iff _ _).mp hge) rfl
-      refine ⟨i6, hs6 _, hle, ?_⟩
-      cases hcorr with
-      | inl hc => exact Or.inl ⟨hc.1, Or.inl hc.2⟩
-      | inr hc => exact Or.inr ⟨hc.1, hc.2, hlow hc.1⟩
+      exact ⟨i6, hs6 _, hle, hfact _ R3.interrupted hcorr⟩
     | some cc1 =>
-    have hint : s3.interrupted = false := by rw [R3.interrupted]; exact A.i1.quiet.2.2
     have hc3 : s3.cache = some cc1 := by rw [R3.cache]; exact hc1
-    have hand : (cfg.fixF3 && s3.interrupted) = false := by rw [hint]; simp
-    simp only [hge, if_true, hc3, hand, Bool.false_eq_true, if_false, moveToCache,
-      List.drop_left, List.take_left] at h
-    cases hdr : drainToCache s0.graph.length ((⟨g, cur, none, sub⟩ : Node) :: new) cc1 with
-    | error site => rw [hdr] at h; cases h
-    | ok cc6 =>
-      rw [hdr] at h
-      simp only [Res.ok.injEq, Prod.mk.injEq] at h
+    by_cases hint : s3.interrupted = true
+    · -- interrupted: nothing is cached (F3), `rollback_to(dfn)`
+      have hand : (cfg.fixF3 && s3.interrupted) = true := by rw [hint, h3]; rfl
+      simp only [hge, if_true, hc3, hand, rollbackTo, List.take_left, Res.ok.injEq, Prod.mk.injEq] at h
       obtain ⟨⟨hv, hm'⟩, hs'⟩ := h
       subst hv; subst hm'; subst hs'
-      have P : Popped s0 s1 { cachedSt s3 s0.graph cc6 with cache := s1.cache } :=
-        ⟨hslen, hsget, rfl, R3.oracle, R3.oracleDefault, R3.interrupted⟩
-      obtain ⟨i6, hs6, hcorr⟩ := A.finish_cache (s6 := cachedSt s3 s0.graph cc6) P hfl
-        ((minGe_iff _ _).mp hge) rfl cc1 cc6 hc1 rfl hdr
-      refine ⟨i6, hs6 _, hle, ?_⟩
-      cases hcorr with
-      | inl hc => exact Or.inl ⟨hc.1, Or.inl hc.2⟩
-      | inr hc => exact Or.inr ⟨hc.1, hc.2, hlow hc.1⟩
+      have P : Popped s0 s1 { keptSt s3 s0.graph with cache := some cc1 } :=
+        ⟨hslen, hsget, hc1.symm, R3.oracle, R3.oracleDefault, R3.interrupted⟩
+      obtain ⟨i6, hs6, hcorr⟩ := A.finish_discard (s6 := { keptSt s3 s0.graph with cache := some cc1 }) P hfl'
+        ((minGe_iff _ _).mp hge) rfl
+      exact ⟨i6, hs6 _, hle, hfact _ R3.interrupted hcorr⟩
+    · have hint' : s3.interrupted = false := by cases hh : s3.interrupted <;> simp_all
+      have hni : s1.interrupted = false := by rw [← R3.interrupted]; exact hint'
+      have hne : cur ≠ .ambig := fun e => by rw [hamb e] at hni; cases hni
+      have hnew : new3 = new := by
+        cases hcase with
+        | inl h1 => exact h1.1
+        | inr h1 => exact absurd h1.2 hne
+      subst hnew
+      have hand : (cfg.fixF3 && s3.interrupted) = false := by rw [hint']; simp
+      simp only [hge, if_true, hc3, hand, Bool.false_eq_true, if_false, moveToCache,
+        List.drop_left, List.take_left] at h
+      cases hdr : drainToCache s0.graph.length ((⟨g, cur, none, sub⟩ : Node) :: new3) cc1 with
+      | error site => rw [hdr] at h; cases h
+      | ok cc6 =>
+        rw [hdr] at h
+        simp only [Res.ok.injEq, Prod.mk.injEq] at h
+        obtain ⟨⟨hv, hm'⟩, hs'⟩ := h
+        subst hv; subst hm'; subst hs'
+        have P : Popped s0 s1 { cachedSt s3 s0.graph cc6 with cache := s1.cache } :=
+          ⟨hslen, hsget, rfl, R3.oracle, R3.oracleDefault, R3.interrupted⟩
+        obtain ⟨i6, hs6, hcorr⟩ := A.finish_cache (s6 := cachedSt s3 s0.graph cc6) P (hfl' hne)
+          ((minGe_iff _ _).mp hge) rfl cc1 cc6 hc1 rfl hdr hni
+        exact ⟨i6, hs6 _, hle, hfact _ R3.interrupted (fun _ => hcorr)⟩
   · obtain ⟨l, hl, hlt⟩ := not_minGe hge
     simp only [hge, Bool.false_eq_true, if_false, Res.ok.injEq, Prod.mk.injEq] at h
     obtain ⟨⟨hv, hm'⟩, hs'⟩ := h
     subst hv; subst hm'; subst hs'
-    have P : Popped s0 s1 (keptSt s3 (s0.graph ++ (⟨g, cur, none, sub⟩ : Node) :: new)) :=
+    have P : Popped s0 s1 (keptSt s3 (s0.graph ++ (⟨g, cur, none, sub⟩ : Node) :: new3)) :=
       ⟨hslen, hsget, R3.cache, R3.oracle, R3.oracleDefault, R3.interrupted⟩
-    obtain ⟨i5, hs5⟩ := A.finish_keep P hfl l hl hlt rfl
+    have hkeep : Inv c inst dom fx (keptSt s3 (s0.graph ++ (⟨g, cur, none, sub⟩ : Node) :: new3)) ∧
+        Step c inst s0 (keptSt s3 (s0.graph ++ (⟨g, cur, none, sub⟩ : Node) :: new3)) sub := by
+      cases hcase with
+      | inl h1 =>
+        obtain ⟨e, hfl⟩ := h1
+        subst e
+        exact A.finish_keep P hfl l hl hlt rfl
+      | inr h1 =>
+        obtain ⟨e, hca⟩ := h1
+        subst e; subst hca
+        exact A.finish_keep_amb rfl P l hl hlt rfl
+    obtain ⟨i5, hs5⟩ := hkeep
     refine ⟨i5, hs5.weaken (updateFrom_le_right m sub), hle, ?_⟩
-    cases A.cur_val with
-    | inl hc =>
-      refine Or.inl ⟨hc, Or.inr ⟨s0.graph.length, _, mid_at _ _ _, rfl, hc, ?_, fun d hd => by cases hd⟩⟩
+    rcases A.cur_val with hc | hc | hc
+    · refine Or.inl ⟨hc, Or.inr ⟨s0.graph.length, _, mid_at _ _ _, rfl, hc, ?_, fun d hd => by cases hd⟩⟩
       refine (updateFrom_le_right m sub).trans ?_
       rw [hl]
       exact Nat.le_of_lt hlt
-    | inr hc => exact Or.inr ⟨hc, A.fact.not_tgt hc, hlow hc⟩
+    · exact Or.inr (Or.inl ⟨hc, A.fact.not_tgt hc, hlow hc⟩)
+    · exact Or.inr (Or.inr ⟨hc, by
+        show s3.interrupted = true
+        rw [R3.interrupted]; exact hamb hc⟩)
 
 theorem Step.of_work {s s' : St} {w : Nat} {lb : Min} (h : Step c inst { s with work := w } s' lb) :
     Step c inst s s' lb :=
-  ⟨h.graph, h.stack, h.cacheExt, h.ext, h.low, h.cacheMode⟩
+  ⟨h.graph, h.stack, h.cacheExt, h.ext, h.low, h.cacheMode, h.intr, h.quiet⟩
 
 theorem Fact.of_work {s s' : St} {w : Nat} {m' : Min} {g : Nat} {v : V}
     (h : Fact c inst { s with work := w } s' m' g v) : Fact c inst s s' m' g v := h
 
-/-- PARTIAL CORRECTNESS of `solve_goal` -/
-theorem solveGoal_sem (hyp : Hyp c inst dom) :
-    ∀ d, SubSpec c inst dom (solveGoal inst cfg d)
+/-- what a node found in the graph reports -/
+theorem hit_fact {s : St} (hi : Inv c inst dom fx s) {g dfn : Nat} {node : Node} (hn : s.graph[dfn]? = some node)
+    (hgo : node.goal = g) {s' : St} {m' : Min} (hpre : s'.graph = s.graph) (hint : s'.interrupted = s.interrupted)
+    (hfl : ∀ d, node.stackDepth = some d → flagAt s'.stack d) (l : Nat) (hlk : node.links = some l)
+    (hl : l ≤ dfn) (hm' : MinLe m' node.links) : Fact c inst s s' m' g node.solution := by
+  subst hgo
+  rcases hi.val dfn node hn with ht' | hb | ha
+  · refine Or.inl ⟨ht', Or.inr ⟨dfn, node, by rw [hpre]; exact hn, rfl, ht', ?_, hfl⟩⟩
+    refine hm'.trans ?_
+    rw [hlk]; exact hl
+  · exact Or.inr (Or.inl ⟨hb, hi.approx dfn node hn hb, hi.not_inG_of_bot (Or.inr ⟨dfn, node, hn, rfl, hb⟩)⟩)
+  · exact Or.inr (Or.inr ⟨ha, by rw [hint]; exact hi.amb dfn node hn ha⟩)
+
+/-- PARTIAL CORRECTNESS of `solve_goal` (any `should_continue` oracle) -/
+theorem solveGoal_sem (hyp : Hyp c inst dom) (h3 : cfg.fixF3 = true) (h10 : fx = true → cfg.fixF10 = true) :
+    ∀ d, SubSpec c inst dom fx (solveGoal inst cfg d)
   | 0 => by
     intro g m s v m' s' _ _ h
     simp [solveGoal] at h
@@ -118,7 +180,7 @@ theorem solveGoal_sem (hyp : Hyp c inst dom) :
     | ok u s0 =>
       have e0 := tick_ok cfg s s0 ht
       subst e0
-      have i0 : Inv c inst dom { s with work := s.work + 1 } := hi.work _
+      have i0 : Inv c inst dom fx { s with work := s.work + 1 } := hi.work _
       cases hc : cacheLookup ({ s with work := s.work + 1 } : St) g with
       | some w =>
         rw [solveGoal_cached inst cfg d g m s _ w ht hc] at h
@@ -130,16 +192,13 @@ theorem solveGoal_sem (hyp : Hyp c inst dom) :
         cases hi.cacheOK g w hin with
         | inl hk => exact Or.inl ⟨hk.1, Or.inl hk.2⟩
         | inr hk =>
-          refine Or.inr ⟨hk.1, hk.2, hi.not_inG_of_bot (Or.inl ?_)⟩
+          refine Or.inr (Or.inl ⟨hk.1, hk.2, hi.not_inG_of_bot (Or.inl ?_)⟩)
           rw [← hk.1]; exact hin
       | none =>
         cases hl : lookup ({ s with work := s.work + 1 } : St).graph g with
         | some dfn =>
           obtain ⟨node, hn, hgo⟩ := lookup_some hl
           rw [solveGoal_hit inst cfg d g m s _ ht hc dfn hl node hn] at h
-          have hbot : node.solution = bot c → ¬ Tgt c inst g ∧ ¬ InG c inst s g := by
-            intro hb
-            refine ⟨by rw [← hgo]; exact i0.approx dfn node hn hb, hi.not_inG_of_bot (Or.inr ⟨dfn, node, hn, hgo, hb⟩)⟩
           cases hsd : node.stackDepth with
           | none =>
             simp only [hsd, Res.ok.injEq, Prod.mk.injEq] at h
@@ -147,17 +206,13 @@ theorem solveGoal_sem (hyp : Hyp c inst dom) :
             subst hv; subst hm'; subst hs'
             obtain ⟨l, hlk, hll⟩ := i0.nonstk dfn node hn hsd
             refine ⟨i0, Step.work s _ _, updateFrom_le_left _ _, ?_⟩
-            cases i0.val dfn node hn with
-            | inl ht' =>
-              refine Or.inl ⟨ht', Or.inr ⟨dfn, node, hn, hgo, ht', ?_, fun d' hd' => by rw [hsd] at hd'; cases hd'⟩⟩
-              refine (updateFrom_le_right m node.links).trans ?_
-              rw [hlk]; exact Nat.le_of_lt hll
-            | inr hb => exact Or.inr ⟨hb, hbot hb⟩
+            exact Fact.of_work (hit_fact i0 hn hgo rfl rfl (fun d' hd' => by rw [hsd] at hd'; cases hd') l hlk
+              (Nat.le_of_lt hll) (updateFrom_le_right m node.links))
           | some depth =>
             obtain ⟨hdl, hlk⟩ := i0.stk dfn node depth hn hsd
             have hnle : ¬ ({ s with work := s.work + 1 } : St).stack.length ≤ depth := Nat.not_le.mpr hdl
             have hext := stackExt_setCycle_true depth s.stack
-            have i1 : Inv c inst dom { ({ s with work := s.work + 1 } : St) with stack := setCycle true depth s.stack } :=
+            have i1 : Inv c inst dom fx { ({ s with work := s.work + 1 } : St) with stack := setCycle true depth s.stack } :=
               i0.stackChange rfl ⟨rfl, rfl, rfl, rfl⟩ hext
             have hmix : mixedFrom (setCycle true depth ({ s with work := s.work + 1 } : St).stack) depth = false :=
               mixedFrom_false i1.stackCo depth
@@ -171,16 +226,12 @@ theorem solveGoal_sem (hyp : Hyp c inst dom) :
                 (s' := { ({ s with work := s.work + 1 } : St) with stack := setCycle true depth s.stack })
                 rfl ⟨rfl, rfl, rfl, rfl⟩ hext _
             refine ⟨i1, Step.of_work hst, updateFrom_le_left _ _, ?_⟩
-            cases i0.val dfn node hn with
-            | inl ht' =>
-              refine Or.inl ⟨ht', Or.inr ⟨dfn, node, hn, hgo, ht', ?_, fun d' hd' => ?_⟩⟩
-              · refine (updateFrom_le_right m node.links).trans ?_
-                rw [hlk]; exact Nat.le_refl _
-              · rw [hsd] at hd'
-                cases hd'
-                have hlt : depth < s.stack.length := hdl
-                exact ⟨_, setCycle_getElem?_eq true depth s.stack _ (List.getElem?_eq_getElem hlt), rfl⟩
-            | inr hb => exact Or.inr ⟨hb, hbot hb⟩
+            refine Fact.of_work (hit_fact i0 hn hgo rfl rfl (fun d' hd' => ?_) dfn hlk (Nat.le_refl _)
+              (updateFrom_le_right m node.links))
+            rw [hsd] at hd'
+            cases hd'
+            have hlt : depth < s.stack.length := hdl
+            exact ⟨_, setCycle_getElem?_eq true depth s.stack _ (List.getElem?_eq_getElem hlt), rfl⟩
         | none =>
           have hu : Undef ({ s with work := s.work + 1 } : St) g := by
             intro w hw
@@ -200,8 +251,9 @@ theorem solveGoal_sem (hyp : Hyp c inst dom) :
             | panic site s3 => rw [hloop] at h; cases h
             | ok sub s3 =>
               rw [hloop] at h
-              have hp := loop_sem hyp (solveGoal_sem hyp d) cfg.rounds _ sub s3 (push_loopSt hyp i0 hu hg) hloop
-              obtain ⟨i', hs', hle', hf'⟩ := finishGoal_sem hp m v m' s' h
+              have hp := loop_sem hyp h3 h10 (solveGoal_sem hyp h3 h10 d) cfg.rounds _ sub s3
+                (push_loopSt hyp i0 hu hg) hloop
+              obtain ⟨i', hs', hle', hf'⟩ := finishGoal_sem h3 hp m v m' s' h
               exact ⟨i', Step.of_work hs', hle', Fact.of_work hf'⟩
 
 end
